@@ -16,6 +16,7 @@ import (
 	"encoding/base64"
 	"errors"
 	"fmt"
+	"math"
 	"strconv"
 	"time"
 
@@ -59,7 +60,12 @@ func GenerateLoginToken(op TokenOptions) (string, error) {
 		op.Duration = defaultDuration
 	}
 	now := time.Now().Unix()
-	expiryCaveat := TimePrefix + strconv.FormatInt(now+int64(op.Duration), 10)
+	expiry := now + int64(op.Duration)
+	if op.Duration > 0 && expiry < now {
+		// a duration so long that the sum overflows: the token never expires
+		expiry = math.MaxInt64
+	}
+	expiryCaveat := TimePrefix + strconv.FormatInt(expiry, 10)
 	err = mac.AddFirstPartyCaveat([]byte(expiryCaveat))
 	if err != nil {
 		return "", macaroonError(err)
